@@ -255,6 +255,19 @@ class Prov(object):
                 j = self.eval(f, e.func, seen, facts)
                 if isinstance(j, Joiner):
                     return j.depth + sum(self._min_len(f, a, seen, facts) for a in e.args)
+            h = idx.funcs.get(callee or "")
+            if h is not None and h.outer is None and not h.mod.is_test:
+                # a path computed by a helper of the package (`_init_filepath_in(output_directory, name)`): the meet over
+                # its return expressions, its parameters standing for what ALL its call sites hand in (context-insensitive)
+                key = (h.qual, "<return>", None)
+                rets = [r.value for r in iter_own(h.node) if isinstance(r, ast.Return) and r.value is not None]
+                if rets and key not in seen:
+                    res = INF
+                    for r in rets:
+                        res = meet(res, self.eval(h, r, seen | {key}, None))
+                        if res is None:
+                            return None
+                    return res
             return None
         if isinstance(e, ast.Subscript) or isinstance(e, ast.BinOp):
             return None
